@@ -116,7 +116,7 @@ type caseEnv struct {
 	// executions of the owning case.
 	failID    string
 	failBatch bool
-	calls           [nCounters]int64
+	calls     [nCounters]int64
 }
 
 type envKey struct{}
